@@ -179,3 +179,41 @@ Example ex_version_round :
   M_version_round 4096 = 4063%N /\ version_milli_string 4096 = 62%N /\ version_milli_half_up 4096 = 63%N /\
   M_version_round 12288 = 12321%N /\ version_milli_string 12288 = 188%N.
 Proof. vm_compute. repeat split; reflexivity. Qed.
+
+(* ---------- timestamps ---------- *)
+Example ex_time :
+  M_decodeTime (M_encodeTime (mkTime 1136239445 999999999)) = mkTime 1136239445 0 /\
+  M_decodeTime (M_encodeTime (mkTime zero_unix 0)) = mkTime zero_unix 0 /\
+  M_encodeTime (mkTime zero_unix 0) = 0 /\
+  M_encodeTime (mkTime head_zeroTime 0) = 0 /\
+  M_decodeTime (M_encodeTime (mkTime 9223372036854775807 0)) = mkTime 9223372036854775807 0 /\
+  M_decodeTime (M_encodeTime (mkTime (-9223372036854775808) 0)) = mkTime (-9223372036854775808) 0.
+Proof. vm_compute. repeat split; reflexivity. Qed.
+
+(* ---------- decoder fixed points ---------- *)
+Example ex_hmtx_decode_fixpoint :
+  let hhea := hhea_bytes ex_info 3 (-7) 1 2 3 4 2 in
+  let hm := [1; 244; 255; 236; 2; 88; 0; 30; 0; 40; 128; 0]%N in
+  match M_hmtx_decode hhea (Some hm) with
+  | Ok d =>
+      d_widths d = Some [500; 600; 600; 600] /\ d_lsb d = Some [-20; 30; 40; -32768] /\
+      match M_hmtx_encode (mkHinfo (d_widths d) None (d_lsb d) (d_ascent d) (d_descent d) (d_linegap d) (d_caretoffset d))
+                          (d_rise d) (d_run d) with
+      | Ok (h2, Some m2) => M_hmtx_decode h2 (Some m2) = Ok d
+      | _ => False
+      end
+  | _ => False
+  end.
+Proof. vm_compute. repeat split; reflexivity. Qed.
+
+Example ex_os2_legacy_tables :
+  (* a version-0 table that ends after the first 68 bytes, and one with the 10 further bytes *)
+  let t := M_os2_encode ex_os2 in
+  let t0 := 0%N :: 0%N :: firstn 66 (skipn 2 t) in
+  let t1 := 0%N :: 1%N :: firstn 76 (skipn 2 t) in
+  match M_os2_decode t0, M_os2_decode t1 with
+  | Ok a, Ok b => os_ascent a = 0 /\ os_ascent b = 800 /\ os_cpr b = 0%N /\
+                  M_os2_decode (M_os2_encode a) = Ok a /\ M_os2_decode (M_os2_encode b) = Ok b
+  | _, _ => False
+  end.
+Proof. vm_compute. repeat split; reflexivity. Qed.
